@@ -27,6 +27,9 @@ theorem shapes_version : True :=
 /-- imports and item names are what the translation takes them to be (marker emitted by the translator) -/
 theorem names_as_expected : True := Semver.Gen.names_as_expected
 
+/-- the data types are declared exactly as the translation expects (marker emitted by the translator) -/
+theorem declarations_as_expected : True := Semver.Gen.declarations_as_expected
+
 theorem partial_cmp_Version : True := Semver.Gen.partial_cmp_is_cmp_Version
 
 /-! ### std equalities on the model's types -/
